@@ -739,7 +739,7 @@ static void malformed_phases(bool safety_only)
         if (vrt::want_sample("small_utf32") && s.size() == L32 && ref::has_bad(ref::decode_utf32(s.data(), s.size()))) vrt::sample("small_utf32", "units " + showu(s));
     });
     // well-formed text cut at every unit; seeded mutation of valid text
-    vrt::phase("cut_and_mutate", vrt::tier_count(20000, 1500000), [&](uint64_t, Rng &r) {
+    vrt::phase("cut_and_mutate", vrt::tier_count(20000, 250000), [&](uint64_t, Rng &r) {
         std::vector<unsigned long> cps;
         size_t len = 1 + r.below(r.chance(1, 5) ? 30 : 8);
         for (size_t k = 0; k < len; ++k) cps.push_back(random_scalar(r));
@@ -776,7 +776,7 @@ static void malformed_phases(bool safety_only)
     });
     if (safety_only) {
         // C03 extras: pure garbage of length 0..64, empty, (nullptr,0), a few long inputs
-        vrt::phase("garbage", vrt::tier_count(20000, 1500000), [&](uint64_t, Rng &r) {
+        vrt::phase("garbage", vrt::tier_count(20000, 400000), [&](uint64_t, Rng &r) {
             size_t len = r.below(65);
             S s = gen::any_bytes(r, len);
             S16 t(len, u'\0');
